@@ -62,17 +62,13 @@ _monitor_missing = [False]
 def _wrap_pairing():
     if _wrapped[0]:
         return
-    import py_ecc.bls.ciphersuites as cs
-    real = getattr(cs, "pairing", None)
-    if real is None:            # the suite no longer goes through this name: fall back to the model's view
-        _wrapped[0] = True
-        _monitor_missing[0] = True
-        return
 
-    def counting(*a, **k):
+    def observe(Q, Pt):
         _pairing_calls[0] += 1
-        return real(*a, **k)
-    cs.pairing = counting
+    try:
+        bc.install_pairing_monitor(observe)
+    except RuntimeError:        # no such functions any more: fall back to the model's view
+        _monitor_missing[0] = True
     _wrapped[0] = True
 
 
